@@ -95,7 +95,7 @@ type c06case struct {
 
 func main() {
 	rep := kit.NewReport("C06", "exploration",
-		"site sets of <=3 hosts (third site: 3 settings in quick, all 7 in thorough) from {a.test, b.a.test, *.test, *.a.test, catch-all, an IP literal} x 7 per-site tls settings (version ranges, one cipher, client-certificate policies) x 7 SNI names x 4 client version ranges x client certificate yes/no, real crypto/tls handshakes over in-memory pipes against Server.TLSConfig, then a request with every site's name as Host header through Server.ServeHTTP; plus session tickets obtained under one site offered to another (4x4 client-certificate policies x TLS 1.2/1.3 x 3 client certificates x both orders), a client-CA file replaced between loads, and listener groups mixing TLS with plaintext sites and same-name sites with different settings (must be rejected); distinct_nontrivial = outcome classes")
+		"site sets of <=3 hosts (third site: 3 settings in quick, all 7 in thorough) from {a.test, b.a.test, *.test, *.a.test, catch-all, an IP literal} x 7 per-site tls settings (version ranges, one cipher, client-certificate policies) x 7 SNI names x 4 client version ranges x client certificate yes/no, real crypto/tls handshakes over in-memory pipes against Server.TLSConfig, then a request with every site's name as Host header through Server.ServeHTTP; plus session tickets obtained under one site offered to another (6x6 client-certificate policies x TLS 1.2/1.3 x 3 client certificates x both orders), a client-CA file replaced between loads, and listener groups mixing TLS with plaintext sites and same-name sites with different settings (must be rejected); distinct_nontrivial = outcome classes")
 	kit.Init()
 	kit.Log.Off.Store(true)
 	dir := kit.TempDir("c06")
@@ -321,9 +321,10 @@ func main() {
 		}
 		// requests over connections whose (completed) handshake carried each possible server name, including none:
 		// a client-certificate site must refuse every request whose Host differs from that name
-		for _, connName := range append([]string{"", "unknown.example"}, hostMenu[:4]...) {
+		for _, connName := range append([]string{"", "unknown.example", "x.w.a.test", "x.w.test"}, hostMenu[:4]...) {
 			connName = strings.Replace(connName, "*", "w", 1)
-			for _, hs := range sites {
+			// (Host values: every site's own name, and names two labels below the wildcard sites, which a wildcard does not cover)
+			for _, hs := range append(append([]site{}, sites...), site{host: "x.*.a.test"}, site{host: "x.*.test"}) {
 				hostHdr := hs.host
 				if hostHdr == "" {
 					hostHdr = "other.example"
@@ -339,6 +340,10 @@ func main() {
 				}
 				target := refHostSite(sites, hostHdr)
 				if target < 0 {
+					// no site answers for this name: nobody's content, whatever the handshake was
+					if len(rec.Snap.Values("X-Site")) > 0 {
+						rep.Violation("C06/request-after-handshake-misrouted/no-site-for-the-name", fmt.Sprintf("Host %q (handshake name %q) is covered by no site and was answered by %v", hostHdr, connName, rec.Snap.Values("X-Site")), c06case{cf, connName, "", true, hostHdr, fmt.Sprintf("status %d X-Site %v", rec.Status, rec.Snap.Values("X-Site")), "no site"})
+					}
 					continue
 				}
 				t := sites[target]
@@ -472,7 +477,8 @@ func resumption(rep *kit.Report, dir string, ca *kit.CA, caFile string, clientPa
 		rep.Broken("resumption: listen: %v", err)
 	}
 	defer ln.Close()
-	policies := []struct{ name, lines string }{{"none", ""}, {"verify-ca1", "clients " + caFile}, {"verify-ca2", "clients " + ca2File}, {"request", "clients request"}}
+	policies := []struct{ name, lines string }{{"none", ""}, {"verify-ca1", "clients " + caFile}, {"verify-ca2", "clients " + ca2File}, {"request", "clients request"},
+		{"verify-if-given-ca1", "clients verify_if_given " + caFile}, {"verify-if-given-ca2", "clients verify_if_given " + ca2File}}
 	// would a fresh handshake with this certificate be accepted under this policy?
 	fresh := func(policy string, cert string) bool {
 		switch policy {
@@ -480,6 +486,10 @@ func resumption(rep *kit.Report, dir string, ca *kit.CA, caFile string, clientPa
 			return cert == "ca1"
 		case "verify-ca2":
 			return cert == "ca2"
+		case "verify-if-given-ca1":
+			return cert == "ca1" || cert == "none"
+		case "verify-if-given-ca2":
+			return cert == "ca2" || cert == "none"
 		}
 		return true
 	}
